@@ -287,7 +287,7 @@ def _o2(res):
     return {"re": dec.enc(res[0]), "im": dec.enc(res[1])}
 
 
-def _d2o_event(idv, mol, lam, d, v, molecule=None, table=None, energy=None):
+def _d2o_event(idv, mol, lam, d, v, molecule=None, table=None, energy=None, vector=0):
     """mol: labile Formula with density."""
     import periodictable as P
     from periodictable import nsf
@@ -306,6 +306,21 @@ def _d2o_event(idv, mol, lam, d, v, molecule=None, table=None, energy=None):
     ev["psD2O"], ev["rhoD2O"] = parts_of(D2O), dec.to_dec(D2O.density)
     f = lambda vv, dd: nsf.D2O_sld(mol, volume_fraction=vv, D2O_fraction=dd, **kw)
     ev["o10"], ev["o11"], ev["o1d"] = _o2(f(1.0, 0.0)), _o2(f(1.0, 1.0)), _o2(f(1.0, d))
+    if vector:
+        # a contrast series in one call: if the call returns at all, it returns one value per fraction
+        import numpy as np
+        try:
+            r = f(1.0, np.array([0.0, 1.0, d][:vector] + [d] * max(0, vector - 3)))
+        except Exception:
+            r = None
+        if r is not None:
+            ok = all(np.shape(x) == (vector,) for x in r[:2])
+            ev["vecshape_ok"] = bool(ok)
+            if ok:
+                ev["o10"] = _o2((r[0][0], r[1][0]))
+                ev["o11"] = _o2((r[0][1], r[1][1]))
+                if vector >= 3:
+                    ev["o1d"] = _o2((r[0][2], r[1][2]))
     ev["o00"], ev["o01"], ev["o0d"] = _o2(f(0.0, 0.0)), _o2(f(0.0, 1.0)), _o2(f(0.0, d))
     ev["ovd"] = _o2(f(v, d))
     ds, ms = nsf.D2O_match(mol, **kw)
@@ -333,7 +348,7 @@ def _d2o(t, T):
         # fasta.Molecule takes the NATURAL density; give both the same thing
         mol = fasta.Molecule("m", g, density=g.natural_density)
     try:
-        return [_d2o_event(t["id"], g, t.get("wavelength"), t["d"], t["v"], molecule=mol, energy=t.get("energy"))]
+        return [_d2o_event(t["id"], g, t.get("wavelength"), t["d"], t["v"], molecule=mol, energy=t.get("energy"), vector=t.get("vector", 0))]
     except Exception as e:
         return [{"ev": "d2o", "id": t["id"], "exc": "%s: %s" % (type(e).__name__, str(e)[:100])}]
 
@@ -345,6 +360,15 @@ def _fasta_tables(t):
     out = []
     tabs = {"aa": fasta.AMINO_ACID_CODES, "na": fasta.NUCLEIC_ACID_COMPONENTS, "ch": fasta.CARBOHYDRATE_RESIDUES,
             "lipid": fasta.LIPIDS, "rnab": fasta.RNA_BASES, "dnab": fasta.DNA_BASES, "rna": fasta.RNA_CODES, "dna": fasta.DNA_CODES}
+    # every single-code sequence has been asked for through the prefix route with a private table before
+    import periodictable as P
+    from .formexec import _tab
+    for pre, tab in (("aa", fasta.AMINO_ACID_CODES), ("dna", fasta.DNA_CODES), ("rna", fasta.RNA_CODES)):
+        for code in tab:
+            try:
+                P.formula("%s:%s" % (pre, code), table=_tab("T1"))
+            except Exception:
+                pass
     for tn, tab in sorted(tabs.items()):
         for code, m in sorted(tab.items(), key=lambda kv: str(kv[0])):
             f = m.labile_formula
